@@ -182,6 +182,11 @@ func ruleRefShapes(c *Ctx) {
 			if _, ok := isCallTo(in, rel); ok {
 				return []Ev{{Kind: "recurse", Stop: true}}
 			}
+			// the recursion handed to an iterator as a method value (`s.eachRef((*Subscription).ReleaseRPCResources)`):
+			// the call of the iterator's function parameter is the call of what it was handed on this path
+			if m := dynCallee(t, fr, in); m != nil && m == rel {
+				return []Ev{{Kind: "recurse", Stop: true}}
+			}
 			if call, ok := isCallTo(in, unq); ok {
 				if k, ok := constInt(callArgs(call.Common())[1]); ok {
 					return []Ev{{Kind: fmt.Sprintf("unqueue(%d)", k), Stop: true}}
@@ -761,4 +766,31 @@ func ruleSentWithFrame(c *Ctx) {
 		}
 		c.check(bad == "", nm, "an edge is counted as sent in the same task that hands its frame to the client", p.Pos(fn.Pos()), fmt.Sprintf("%d paths", len(tr.Paths)), bad)
 	}
+}
+
+// dynCallee: for a call through a function value, the method or function the value stands for on the current path
+// (a parameter of an inlined helper resolved to what the caller handed it; thunks and bound-method wrappers looked
+// through). nil when unknown.
+func dynCallee(t *Tracer, fr *Frame, in ssa.Instruction) *types.Func {
+	call, ok := in.(*ssa.Call)
+	if !ok || call.Call.IsInvoke() || call.Call.StaticCallee() != nil || t == nil || fr == nil {
+		return nil
+	}
+	if _, isB := call.Call.Value.(*ssa.Builtin); isB {
+		return nil
+	}
+	r := t.Resolve(fr, call.Call.Value)
+	v := stripConv(r.V)
+	if mc, ok := v.(*ssa.MakeClosure); ok {
+		v = mc.Fn
+	}
+	f, ok := v.(*ssa.Function)
+	if !ok {
+		return nil
+	}
+	if f.Synthetic != "" {
+		return boundMethod(f)
+	}
+	m, _ := f.Object().(*types.Func)
+	return m
 }
